@@ -6,6 +6,8 @@ TECH = "bounded symbolic execution of the real Python code on z3 terms carried i
 CLAIMED = {
  "C10": dict(text="For all operand functions (uninterpreted symbols), points and constants within the stated dimensions, value and Jacobian of composed functions equal the textbook combination; bounded by operand dims <= 3 and expression depth <= 2.", ref="DESIGN.md 3/C10",
              note="float64 modelled as exact reals; NumPy primitive model of symgem/core.py (self-tested differentially each run); sparse Jacobians and string expressions outside."),
+ "C01": dict(text="For all bounds (symbolic l<u / l==u / infinite), all user functions and Jacobians (uninterpreted symbols), all request points and all value/Jacobian interleavings within the bound (n<=2-3, m<=2, histories of 2-3 requests), returned values/Jacobians, database keys/values and memoization are as stated, for every preprocessing configuration.", ref="DESIGN.md 3/C01",
+             note="float64 as exact reals; hash stub (all symbolic keys collide, lookups decided by the real __eq__); bounds injected into Variable.__dict__ assuming lb<=ub; integer variables with concrete bounds; sparse Jacobians, complex step and NaN outside."),
 }
 NA = {
  "C07": "JacobianAssembly/CoupledSystem go through scipy.sparse, SuperLU and Krylov solvers: no symbolic value survives csr_matrix(); encoding would verify a model of scipy, not the code (DESIGN.md C07).",
